@@ -8,21 +8,29 @@ def modOfAux : Nat → Nat → Nat → Nat
   | fuel + 1, p, total => if p ≥ total then p else modOfAux fuel (p * 10) total
 def modOf (total : Nat) : Nat := modOfAux 40 1 total
 
-/-- `RandomIndex` loop with explicit fuel; `none` = fuel exhausted (the Go loop would still be running). -/
-def randomIndexLoop (modulus total : Nat) : Nat → Nat → Nat → List Nat → Option (List Nat)
-  | _, _, 0, idx => some idx
-  | 0, _, _ + 1, _ => none
-  | fuel + 1, seed, count + 1, idx =>
+/-- when the seed is exhausted: take the lowest unused indices (the `fix:` of F03). -/
+def fillUnused (total : Nat) : Nat → Nat → List Nat → List Nat
+  | _, 0, idx => idx
+  | i, count + 1, idx =>
+    if h : i < total then
+      if idx.contains i then fillUnused total (i + 1) (count + 1) idx
+      else fillUnused total (i + 1) count (idx ++ [i])
+    else idx
+termination_by i c _ => (total - i, c)
+
+/-- the `for count > 0` loop of `RandomIndex`: one decimal digit of the seed per draw. -/
+def randomIndexLoop (modulus total : Nat) (seed count : Nat) (idx : List Nat) : List Nat :=
+  if count = 0 then idx
+  else if hs : seed = 0 then fillUnused total 0 count idx
+  else
     let rs := (seed % modulus) % total
-    let seed' := seed / 10
-    if idx.contains rs then randomIndexLoop modulus total fuel seed' (count + 1) idx
-    else randomIndexLoop modulus total fuel seed' count (idx ++ [rs])
+    if idx.contains rs then randomIndexLoop modulus total (seed / 10) count idx
+    else randomIndexLoop modulus total (seed / 10) (count - 1) (idx ++ [rs])
+termination_by seed
+decreasing_by all_goals (apply Nat.div_lt_self <;> omega)
 
-def randomIndex (fuel seed total count : Nat) : Option (List Nat) :=
-  if total ≤ count then some [] else randomIndexLoop (modOf total) total fuel seed count []
-
-/-- fuel that decides termination: once the seed is 0 every further draw is 0. -/
-def seedFuel (seed count : Nat) : Nat := (Nat.log2 seed) + count + 4
+def randomIndex (seed total count : Nat) : List Nat :=
+  if total ≤ count then [] else randomIndexLoop (modOf total) total seed count []
 
 /-! ### SelectNodes (the in-place partial heap "sort") -/
 def nodeGe (a b : Node) : Bool := a.lastAlive ≥ b.lastAlive
@@ -74,19 +82,25 @@ def nextSuperLoop (s : State) (snodes : List Node) (status : Nat) (rep : Int) (i
         let stop := if round0 = 0 then i = (snodes.length - 1) % 256 else i = (round0 - 1) % 256
         if stop then some none else nextSuperLoop s snodes status rep ignore size round0 fuel ((i + 1) % 256)
 
-/-- `GetNextSuperNodes`: returns the state (cursor updated) and the chosen super node, `none` = hang. -/
-def getNextSuperNode (s : State) (status : Nat) (rep : Int) (ignore : List Addr) (size : Int) : Option (State × Option Node) :=
-  let (s, round0) := match s.nodeRound with
-    | none => ({ s with nodeRound := some 0 }, 0)
-    | some r => (s, r)
+/-- iterations after which the `uint8` cursor loop has revisited a configuration: it never terminates -/
+def superFuel : Nat := 600
+
+/-- the body of `GetNextSuperNodes` once the stored cursor `round0` has been read -/
+def pickSuper (s : State) (round0 : Nat) (status : Nat) (rep : Int) (ignore : List Addr) (size : Int) : Option (State × Option Node) :=
   let snodes := s.nodes.filter (·.role = 1)
   if snodes.length = 0 then some (s, none) else
-  match nextSuperLoop s snodes status rep ignore size round0 600 round0 with
+  match nextSuperLoop s snodes status rep ignore size round0 superFuel round0 with
   | none => none
   | some none => some (s, none)
   | some (some i) =>
     let next := if (i + 1) % 256 ≥ snodes.length then 0 else (i + 1) % 256
     some ({ s with nodeRound := some next }, snodes[i]?)
+
+/-- `GetNextSuperNodes`: returns the state (cursor updated) and the chosen super node, `none` = hang. -/
+def getNextSuperNode (s : State) (status : Nat) (rep : Int) (ignore : List Addr) (size : Int) : Option (State × Option Node) :=
+  match s.nodeRound with
+  | none => pickSuper { s with nodeRound := some 0 } 0 status rep ignore size
+  | some r => pickSuper s r status rep ignore size
 
 def normalEligible (s : State) (n : Node) (status : Nat) (rep : Int) (size : Int) : Bool :=
   match s.getPledge n.creator with
@@ -101,28 +115,40 @@ def removeFirst (l : List Node) (a : Addr) : List Node :=
 /-- the error message that stands for "this loop never terminates" (a hang, not a panic). -/
 def HANG : String := "HANG"
 
-/-- `RandomSP(count, ignore, size)`: throws `HANG` when a selection loop does not terminate,
-    any other error is a Go panic (slice bounds). -/
+/-- normal-role candidates: eligible nodes minus the ignore list -/
+def candidates (s : State) (ignore : List Addr) (size : Int) : List Node :=
+  ignore.foldl removeFirst (s.nodes.filter (fun n => normalEligible s n ST_SELECT 8000 size))
+
+/-- heap-select up to `2·count` candidates and draw `count` distinct ones from the seed;
+    a negative slice bound is a Go panic. -/
+def maxCandidates (n : Nat) (count : Int) : Int := if (n : Int) > count * 2 then count * 2 else n
+
+def drawSPs (s : State) (nodes : List Node) (count : Int) : TxM (List Node) :=
+  if maxCandidates nodes.length count < 0 then throw "slice bounds out of range"
+  else
+    pure ((randomIndex s.seed (maxCandidates nodes.length count).toNat count.toNat).filterMap
+      (fun i => (selectNodes (maxCandidates nodes.length count).toNat nodes)[i]?))
+
+/-- `RandomSP` after the round-robin super node has been determined -/
+def randomSPWith (s : State) (sup : Option Node) (count : Int) (ignore : List Addr) (size : Int) : TxM (State × List Node) :=
+  match sup with
+  | some n =>
+    if count = 1 then pure (s, [n])
+    else if ((1 + (candidates s ignore size).length : Nat) : Int) ≤ count then pure (s, n :: candidates s ignore size)
+    else do
+      let sps ← drawSPs s (candidates s ignore size) (count - 1)
+      pure (s, n :: sps)
+  | none =>
+    if (((candidates s ignore size).length : Nat) : Int) ≤ count then pure (s, candidates s ignore size)
+    else do
+      let sps ← drawSPs s (candidates s ignore size) count
+      pure (s, sps)
+
+/-- `RandomSP(count, ignore, size)`: throws `HANG` when the super-node cursor loop does not
+    terminate; any other error is a Go panic (slice bounds). -/
 def randomSP (s : State) (count : Int) (ignore : List Addr) (size : Int) : TxM (State × List Node) :=
   match getNextSuperNode s ST_SELECT 8000 ignore size with
   | none => throw HANG
-  | some (s, sup) =>
-    let superCount : Nat := if sup.isSome then 1 else 0
-    if superCount = 1 ∧ count = 1 then pure (s, sup.toList) else
-    let nodes := s.nodes.filter (fun n => normalEligible s n ST_SELECT 8000 size)
-    let nodes := ignore.foldl removeFirst nodes
-    if ((superCount + nodes.length : Nat) : Int) ≤ count then pure (s, sup.toList ++ nodes) else
-    let count := if superCount > 0 then count - 1 else count
-    let maxC : Int := if (nodes.length : Int) > count * 2 then count * 2 else nodes.length
-    if maxC < 0 then throw "slice bounds out of range"   -- nodes[:size] with a negative size
-    else
-    let maxC := maxC.toNat
-    let sel := selectNodes maxC nodes
-    let cnt := count.toNat
-    match randomIndex (seedFuel s.seed cnt) s.seed maxC cnt with
-    | none => throw HANG
-    | some idx =>
-      let sps := idx.filterMap (fun i => sel[i]?)
-      pure (s, sup.toList ++ sps)
+  | some (s, sup) => randomSPWith s sup count ignore size
 
 end SaoVerif
